@@ -8,7 +8,7 @@ from .. import hx
 ID = "C09"
 LEVEL = "model_checking"
 BOUNDS = {
-    "quick": "pairs: piecewise-constant and piecewise-linear operands with 1..4 pieces each (all 16 size pairs), "
+    "quick": "pairs: piecewise-constant and piecewise-linear operands with 1..4 pieces each (all 16 size pairs) plus 5+5, 5+(1|2), (1|2)+5, "
              "arbitrary real breakpoints/values on a shared interval; histories: all sequences of length <= 3 over "
              "{add g0, add g1, add g2, mul_scalar(symbolic), copy} on operands with <= 2 pieces; average_profile of 3; "
              "py and pyx add routines",
@@ -34,6 +34,12 @@ def configs(tier):
                         yield dict(name="pair-intrecv-%s-%s-%d+%d" % (be, kind, p1, p2), what="pair", backend=be,
                                    kind=kind, p1=p1, p2=p2, fork=(kind == "lin"), intrecv=True, validate=12,
                                    cost=3 ** (p1 + p2))
+            if tier == "quick":
+                # code that only triggers from five pieces on (size-guarded fast paths): a few 5-piece pairs
+                for (p1, p2) in [(5, 5), (5, 1), (1, 5), (5, 2), (2, 5)]:
+                    yield dict(name="pair-%s-%s-%d+%d" % (be, kind, p1, p2), what="pair", backend=be, kind=kind,
+                               p1=p1, p2=p2, fork=(kind == "lin"), cost=3 ** (p1 + p2),
+                               split_forks=(6 if p1 + p2 >= 10 else None))
             ops = ["A0", "A1", "A2", "M", "C"]
             L = 3 if tier == "quick" else 4
             for l in range(1, L + 1):
@@ -42,6 +48,11 @@ def configs(tier):
                         continue
                     yield dict(name="hist-%s-%s-%s" % (be, kind, "".join(seq)), what="hist", backend=be, kind=kind,
                                seq=list(seq), P=2, fork=(kind == "lin"), cost=20 * l)
+            if be == "py":
+                # integer-valued receiver (e.g. the spike counts of a PSTH)
+                for seq in (["M"], ["A1", "M"], ["M", "A1"], ["C", "M"]):
+                    yield dict(name="histint-%s-%s-%s" % (be, kind, "".join(seq)), what="hist", backend=be, kind=kind,
+                               seq=list(seq), P=2, fork=(kind == "lin"), intrecv=True, validate=12, cost=40)
             if tier == "thorough":
                 for seq in itertools.product(ops, repeat=3):
                     if sum(o.startswith("A") for o in seq) >= 2:
@@ -181,7 +192,7 @@ def program(E, cfg):
                 E.prove(E.eq(f.integral(), f0.integral() + g.integral()), "integral of the sum = sum of integrals")
         return
     P = cfg["P"]
-    ops = [mkfun(E, "g%d" % k, P, ts, te, kind) for k in range(3)]
+    ops = [mkfun(E, "g%d" % k, P, ts, te, kind, integer=(k == 0 and cfg.get("intrecv", False))) for k in range(3)]
     snaps = [snapshot(g) for g in ops]
     if cfg["what"] == "avg":
         from pyspike.DiscreteFunc import average_profile
